@@ -497,4 +497,5 @@ func c17(p *model.Prog, r *report.Result) {
 	c17r8(p, r, "C17.R8")
 	c17r9(p, r)
 	c17r10(p, r)
+	w5PullName(p, r, "C17.R11")
 }
